@@ -237,6 +237,7 @@ def apply_spec(E, name, args, st):
             if sp.recursive and sp.body is not None:
                 f = z3.RecFunction("spec_" + name, *sorts, E.U.sort(rty))
                 E.specfns[key] = f
+                E.wf_function(f, sorts)
                 formals = [z3.Const(f"{p}!sp", s) for p, s in zip(sp.params, sorts)]
                 s2 = State()
                 s2.spec = 1
@@ -246,6 +247,7 @@ def apply_spec(E, name, args, st):
             else:
                 f = z3.Function("spec_" + name, *sorts, E.U.sort(rty))
                 E.specfns[key] = f
+                E.wf_function(f, sorts)
                 for ax in sp.axioms:
                     add_axiom(E, f"spec {name}", ax[0], ax[1])
         f = E.specfns[key]
@@ -390,6 +392,7 @@ def _typed_args(E, c, bound, st):
 
 def spec_state(E, st, frame, old=None):
     s = st.copy()
+    s.pc = st.pc            # shared: facts introduced while evaluating a specification (pure-call axioms) stay on the path
     s.spec = 1
     s.bound = [frame]
     s.old = old
@@ -441,15 +444,69 @@ def havoc_lv(E, st, expr, frame, hint):
     raise OutsideSubset(f"modifies entry {expr}")
 
 
+def _wf_heap_key(E, st, key):
+    field, tk = key
+    for rec in E.U.records.values():
+        ty = E.U.field_ty(rec.qualname, field)
+        if ty is not None and ty.key == tk:
+            E.wf_array(st.heap[key], ty)
+            return
+
+
 def havoc_all(E, st):
     for key in list(st.heap):
         field, tk = key
         st.heap[key] = z3.Const(E.fresh_name(f"Hhavoc_{field}"), st.heap[key].sort())
+        _wf_heap_key(E, st, key)
     for g in list(st.ghost):
         st.ghost[g] = E.fresh(st.ghost[g].ty, "ghost_" + g)
 
 
+def apply_contract_pure(E, c, fn, args, kw, st, node):
+    """contract used under a binder / in a specification: the callee is an uninterpreted function of its arguments
+    (per heap version) whose contract clauses are asserted universally:  forall args. requires => ensures"""
+    qn = c.qualname
+    bound = bind_params(E, fn, c, args, kw, st, qn)
+    frame = _typed_args(E, c, bound, st)
+    if c.modifies:
+        raise OutsideSubset(f"call of {qn} (modifies state) in a pure context")
+    rty = E.U.parse(c.returns) if c.returns else None
+    if rty is None or rty is NONE:
+        return SVal(None, NONE)
+    hkey = tuple(sorted((k, a.get_id()) for k, a in st.heap.items())) + tuple(sorted((g, v.t.get_id()) for g, v in st.ghost.items()))
+    key = (qn, hkey if not c.pure else ())
+    names = [n for n, v in frame.items() if isinstance(v, SVal) and v.t is not None]
+    E.pure_cache = getattr(E, "pure_cache", {})
+    if key not in E.pure_cache:
+        sorts = [frame[n].t.sort() for n in names]
+        if c.pure:
+            f = E.uf("fn_" + _m(qn), sorts, E.U.sort(rty))
+        else:
+            f = z3.Function(E.fresh_name("pure_" + _m(qn.split(".")[-1])), *sorts, E.U.sort(rty))
+            E.wf_function(f, sorts)
+        E.pure_cache[key] = f
+        consts = [z3.Const(E.fresh_name("a_" + n), srt) for n, srt in zip(names, sorts)]
+        fr = dict(frame)
+        for n, cst in zip(names, consts):
+            fr[n] = SVal(cst, frame[n].ty)
+        fr2 = dict(fr)
+        fr2["result"] = SVal(f(*consts), rty)
+        pre = [eval_spec(E, r, st, fr) for r in c.requires]
+        post = [eval_spec(E, e, st, fr2, old=st) for _, e in c.ensures]
+        if post:
+            ax = z3.ForAll(consts, z3.Implies(z3.And(pre) if pre else z3.BoolVal(True), z3.And(post)),
+                           patterns=[f(*consts)]) if consts else z3.And(post)
+            st.assume(ax)
+        if c.trusted:
+            E.assumptions.add(f"assumed contract (trusted): {qn}" + (f" - {c.note}" if c.note else ""))
+    f = E.pure_cache[key]
+    return SVal(f(*[frame[n].t for n in names]), rty)
+
+
 def apply_contract(E, c, fn, args, kw, st, node, recv_lv=None):
+    if st.nofork or st.spec:
+        yield st, apply_contract_pure(E, c, fn, args, kw, st, node)
+        return
     qn = c.qualname
     bound = bind_params(E, fn, c, args, kw, st, qn)
     frame = _typed_args(E, c, bound, st)
@@ -556,6 +613,9 @@ def call_repo(E, fn, qualname, args, kw, st, dropped=(), node=None, owner=None):
     if owner is not None:
         env["__owner__"] = PyObj(owner)
     env["__fname__"] = PyObj(qualname)
+    if st.nofork or st.spec:
+        yield from _call_repo_pure(E, fdef, qualname, env, st)
+        return
     st.env = env
     E.depth += 1
     saved_sink = E.sink
@@ -586,6 +646,77 @@ def call_repo(E, fn, qualname, args, kw, st, dropped=(), node=None, owner=None):
             E.sink.append(s)
         else:
             raise OutsideSubset(f"break/continue escaped {qualname}")
+
+
+def _call_repo_pure(E, fdef, qualname, env, st):
+    """inline a repo function inside a pure context (quantifier body / specification): statement-level branches are
+    explored and the returned values merged with if-then-else over the branch conditions; the callee must not change
+    state; raising paths are ignored (partial operations are assumed defined in pure contexts)"""
+    from .stmts import exec_block
+    work = st.copy()
+    work.pc = list(st.pc)
+    work.env = env
+    saved_nofork = work.nofork
+    work.nofork = 0
+    base = len(work.pc)
+    nmarks = len(work.bmarks)
+    E.depth += 1
+    saved_sink = E.sink
+    E.sink = []
+    E.suppress += 1
+    try:
+        outs = exec_block(E, fdef.body, work)
+    finally:
+        E.depth -= 1
+        E.suppress -= 1
+        dropped = E.sink
+        E.sink = saved_sink
+    if any(d.status and d.status[0] == "raise" for d in dropped + outs):
+        E.assumptions.add("partial operations inside quantifier/comprehension bodies are assumed defined")
+    rets = []
+    for o in outs:
+        if o.status is not None and o.status[0] == "raise":
+            continue
+        v = o.status[1] if o.status else SVal(None, NONE)
+        marks = [i for i in o.bmarks[nmarks:] if i >= base]
+        cond = z3.And([o.pc[i] for i in marks]) if marks else z3.BoolVal(True)
+        facts = [o.pc[i] for i in range(base, len(o.pc)) if i not in marks]
+        for key, arr in o.heap.items():
+            if key in st.heap and st.heap[key] is not arr:
+                raise OutsideSubset(f"{qualname} changes the heap in a pure context")
+        rets.append((cond, v, facts))
+        for k2, a2 in o.heap.items():
+            st.heap.setdefault(k2, a2)
+    if not rets:
+        raise OutsideSubset(f"{qualname}: no normal return in a pure context")
+    for cond, v, facts in rets:
+        for f in facts:
+            if st.qvars and _mentions(f, st.qvars):
+                raise OutsideSubset(f"{qualname}: a fact assumed while inlining under a binder mentions the bound variable")
+            st.assume(z3.Implies(cond, f) if not z3.is_true(cond) else f)
+    res = rets[-1][1]
+    for cond, v, _ in reversed(rets[:-1]):
+        res = E.ite(cond, v, res, st)
+    yield st, res
+
+
+def _mentions(expr, consts):
+    ids = {c.get_id() for c in consts}
+    seen = set()
+    todo = [expr]
+    while todo:
+        x = todo.pop()
+        i = x.get_id()
+        if i in seen:
+            continue
+        seen.add(i)
+        if i in ids:
+            return True
+        if z3.is_quantifier(x):
+            todo.append(x.body())
+        elif z3.is_app(x):
+            todo.extend(x.children())
+    return False
 
 
 def unknown_call(E, name, args, kw, st, node):
